@@ -135,7 +135,7 @@ def run(ctx):
         if ('json', 'v1r') in sums:
             got = sums[('json', 'v1r')][0]
             for name, t in g.truth.items():
-                rec = got.get(name)
+                rec = got.get(name.replace('-', '_'))
                 if rec is None:
                     res.oracle_failures.append({'key': 'symbol-missing', 'what': '%s missing from the JSON document' % name, 'input': inp})
                     break
@@ -166,7 +166,7 @@ def run(ctx):
                             name, d and d.get('syntax'), t['pyclass']), 'input': inp})
                         break
                 if t['class'] == 'notificationtype':
-                    d = got.get(name)
+                    d = got.get(name.replace('-', '_'))
                     if d is None or 'NotificationType' not in d.get('bases', []) or d.get('oid') != list(t['oid']):
                         res.oracle_failures.append({'key': 'pysnmp-trap', 'what': 'TRAP-TYPE %s came out as %r, expected a NotificationType at %s' % (
                             name, d and (d.get('bases'), d.get('oid')), dotted(t['oid'])), 'input': inp})
@@ -222,6 +222,11 @@ def run(ctx):
                 em = dict((k, v) for k, v in impl['emitted'])
                 for m, syms in d.items():
                     for s in syms:
+                        if not (m in table and s in table[m]):
+                            # a symbol without an SMIv2 home stays imported from the module the text names
+                            if s not in em.get(m, []):
+                                res.oracle_failures.append({'key': 'direct-import-lost', 'what': '%s is imported from %s in the text but not after the rewriting' % (s, m),
+                                                            'input': {'imports': d, 'expect_kept': [m, s]}})
                         if m in table and s in table[m]:
                             if s in em.get(m, []) and (m, s) not in table[m][s]:
                                 res.oracle_failures.append({'key': 'not-converted', 'what': '%s still imported from %s' % (s, m), 'input': {'imports': d}})
@@ -255,6 +260,9 @@ def replay(payload):
         table = AbstractCodeGen.convertImportv2
         out, mods = IntermediateCodeGen().genImports(copy.deepcopy(inp['imports']))
         em = out['imports']
+        if 'expect_kept' in inp:
+            m, s = inp['expect_kept']
+            return {'fails': s not in em.get(m, [])}
         for m, syms in inp['imports'].items():
             for s in syms:
                 want = inp.get('expect', {}).get(m + '/' + s) or (table.get(m, {}).get(s))
